@@ -94,7 +94,12 @@ pub fn explore<BF, F>(
         let mut hs: Vec<u32> = m.handles.iter().map(|e| e.0).collect();
         hs.sort();
         hs.dedup();
-        let prune_key = h128(&format!("{key}#{hs:?}"));
+        // the subtree below a state depends on the compiler input, the reachable handles AND
+        // the family budget left (folding lets a longer history reach the same DAG)
+        let prune_key = h128(&format!(
+            "{key}#{hs:?}#{}/{}/{}/{}/{}/{:?}",
+            _st.n_value, _st.n_assert, _st.n_wide, _st.n_pub, _st.n_priv, _st.last_assert
+        ));
         let newkey = seen_keys.insert(h128(&key));
         if newkey {
             stats.canonical.fetch_add(1, Ordering::Relaxed);
@@ -135,8 +140,10 @@ pub fn explore<BF, F>(
         let mut hs: Vec<u32> = m.handles.iter().map(|e| e.0).collect();
         hs.sort();
         hs.dedup();
-        let prune_key = h128(&format!("{key}#{hs:?}"));
-        let _ = st;
+        let prune_key = h128(&format!(
+            "{key}#{hs:?}#{}/{}/{}/{}/{}/{:?}",
+            st.n_value, st.n_assert, st.n_wide, st.n_pub, st.n_priv, st.last_assert
+        ));
         if seen_keys.insert(h128(&key)) {
             stats.canonical.fetch_add(1, Ordering::Relaxed);
             on_canonical(p, m);
